@@ -149,7 +149,7 @@ func AddStandardFilters(fd FilterDictionary) { //nolint: gocyclo
 		case float64:
 			return divFloat(a, q)
 		default:
-			return nil, fmt.Errorf("invalid divisor: '%v'", b)
+			return nil, fmt.Errorf("invalid divisor: '%s'", values.Sprint(b))
 		}
 	})
 	fd.AddFilter("round", func(n float64, places func(int) int) float64 {
